@@ -6,6 +6,9 @@ import Pyunicorn.Generated.StructC16
 import Pyunicorn.Lemmas.EventsObject
 import Pyunicorn.Lemmas.EventsF32
 import Pyunicorn.Lemmas.EventsF64
+import Pyunicorn.Lemmas.EventsF64Matrix
+import Pyunicorn.Lemmas.EventsFl
+import Pyunicorn.Lemmas.EventsFlScale
 import Pyunicorn.Lemmas.EventsNpQuantile
 /-!
 # C16 — Event synchronisation / coincidence follow their counting rules
@@ -1848,5 +1851,375 @@ the sample `1` is lost -/
 example : makeEventMatrixD .dataInt [[0], [1], [2], [3]] 1 [.value] [some (3 / 2)] [some .below]
       ≠ makeEventMatrix [[0], [1], [2], [3]] 1 [.value] [some (3 / 2)] [some .below] := by
   decide +kernel
+
+/-! ## round 5: the float64 ES analysis matrix as a whole
+
+`esAnalysisF64` is the matrix of doubles `event_series_analysis(method='ES')` returns (the driver
+answers `esmatf64` with it and the harness compares every entry bit for bit).  Rounds 3 / 4
+proved the range over ℝ for the matrix and at float level for one pair; here the two are joined:
+every entry of the *float* matrix, for every `N`, every binary event matrix on strictly increasing
+time stamps (records of up to `2²⁴` samples), every window and lag, under all six
+symmetrisations. -/
+
+/-- the two directed entries `[i,j]`, `[j,i]` of the ES matrix with everything the float-level
+argument needs: both NaN, or two half-integer counts in `[0, √m]` over one shared norm
+`1 ≤ m ≤ 2⁴⁸` -/
+def GoodPairF (p q : ESEntry) : Prop :=
+  (p = none ∧ q = none) ∨ ∃ a b m, p = some (a, m) ∧ q = some (b, m) ∧ (1 ≤ m ∧ m ≤ 2 ^ 48) ∧
+    (0 ≤ a ∧ a ^ 2 ≤ (m : Rat) ∧ ∃ k : Nat, a = (k : Rat) / 2) ∧
+    (0 ≤ b ∧ b ^ 2 ≤ (m : Rat) ∧ ∃ k : Nat, b = (k : Rat) / 2)
+
+theorem goodPairF_symm {p q : ESEntry} (h : GoodPairF p q) : GoodPairF q p := by
+  rcases h with ⟨h1, h2⟩ | ⟨a, b, m, h1, h2, hm, ha, hb⟩
+  · exact Or.inl ⟨h2, h1⟩
+  · exact Or.inr ⟨b, a, m, h2, h1, hm, hb, ha⟩
+
+theorem goodPairF_zero : GoodPairF (some (0, 1)) (some (0, 1)) :=
+  Or.inr ⟨0, 0, 1, rfl, rfl, ⟨le_refl _, by norm_num⟩, ⟨le_refl _, by norm_num, 0, by norm_num⟩,
+    ⟨le_refl _, by norm_num, 0, by norm_num⟩⟩
+
+theorem esPairEntry_goodF (ts1 ts2 : List Rat) (bx by_ : List Bool) (tm : Option Rat) (lag : Rat)
+    (h1 : List.Pairwise (· < ·) ts1) (h2 : List.Pairwise (· < ·) ts2)
+    (hl1 : ts1.length ≤ 2 ^ 24) (hl2 : ts2.length ≤ 2 ^ 24) :
+    GoodPairF (esPairEntry (esSeries ts1 bx ts2 by_ tm lag)).1
+      (esPairEntry (esSeries ts1 bx ts2 by_ tm lag)).2 := by
+  cases hr : esSeries ts1 bx ts2 by_ tm lag with
+  | nan => exact Or.inl ⟨rfl, rfl⟩
+  | zero => exact goodPairF_zero
+  | val a b m =>
+    have hrng := esSeries_range ts1 ts2 bx by_ tm lag h1 h2 a b m hr
+    have hr' : es (select ts1 bx) (select ts2 by_) tm lag = .val a b m := hr
+    obtain ⟨hm, hm1, hka, hkb⟩ := es_val_facts _ _ tm lag a b m hr'
+    have hm48 : m ≤ 2 ^ 48 := by
+      rw [hm]; exact norm_le_of_length ts1 ts2 bx by_ hl1 hl2
+    exact Or.inr ⟨a, b, m, rfl, rfl, ⟨hm1, hm48⟩,
+      ⟨hrng.1.1, by rw [pow_two]; exact hrng.1.2, hka⟩,
+      ⟨hrng.2.1, by rw [pow_two]; exact hrng.2.2, hkb⟩⟩
+
+/-- every mirrored pair of entries of `_ndim_event_synchronization` is a `GoodPairF` -/
+theorem esMatrix_pairF (ts : List Rat) (E : Mat Bool) (n : Nat) (tm : Option Rat) (lag : Rat)
+    (hts : List.Pairwise (· < ·) ts) (hlen : ts.length ≤ 2 ^ 24)
+    (i j : Nat) (hi : i < n) (hj : j < n) :
+    GoodPairF ((esMatrix ts E n tm lag).get none i j) ((esMatrix ts E n tm lag).get none j i) := by
+  rcases Nat.lt_trichotomy i j with hij | hij | hij
+  · obtain ⟨e1, e2⟩ := esMatrix_entry ts E n tm lag i j hij hj
+    rw [e1, e2]
+    exact esPairEntry_goodF ts ts _ _ tm lag hts hts hlen hlen
+  · subst hij
+    have : (esMatrix ts E n tm lag).get none i i = some (0, 1) := by
+      unfold esMatrix
+      rw [assemble_entry _ _ _ _ i i hi hi]
+      simp
+    rw [this]
+    exact goodPairF_zero
+  · obtain ⟨e1, e2⟩ := esMatrix_entry ts E n tm lag j i hij hi
+    rw [e1, e2]
+    exact goodPairF_symm (esPairEntry_goodF ts ts _ _ tm lag hts hts hlen hlen)
+
+/-- entry `[i,j]` of the float64 analysis matrix: the helper of the chosen symmetrisation applied
+to the doubles stored at `[i,j]` and `[j,i]` by `_ndim_event_synchronization` -/
+theorem esAnalysisF64_entry (ts : List Rat) (E : Mat Bool) (n : Nat) (tm : Option Rat) (lag : Rat)
+    (s : Symm) (i j : Nat) (hi : i < n) (hj : j < n) :
+    (esAnalysisF64 ts E n tm lag s).get none i j
+      = symmOpF64N s (esEntryF64 ((esMatrix ts E n tm lag).get none i j))
+          (esEntryF64 ((esMatrix ts E n tm lag).get none j i)) := by
+  unfold esAnalysisF64
+  rw [symmetrize_entry n none none _ _ i j hi hj,
+    mat_get_map' _ esEntryF64 none none rfl, mat_get_map' _ esEntryF64 none none rfl]
+
+/-- **value of every entry of the float64 ES analysis matrix**: NaN (a series of the pair has no
+event), or the float helper applied to the two doubles `fl(a / fl(√m))`, `fl(b / fl(√m))` of the
+pair, both of which lie in `[0,1]` -/
+theorem esAnalysisF64_value (ts : List Rat) (E : Mat Bool) (n : Nat) (tm : Option Rat) (lag : Rat)
+    (s : Symm) (hts : List.Pairwise (· < ·) ts) (hlen : ts.length ≤ 2 ^ 24)
+    (i j : Nat) (hi : i < n) (hj : j < n) :
+    ((esAnalysisF64 ts E n tm lag s).get none i j = none ∧
+      (esAnalysis ts E n tm lag s).get none i j = none) ∨
+    ∃ a b m, (esMatrix ts E n tm lag).get none i j = some (a, m) ∧
+      (esMatrix ts E n tm lag).get none j i = some (b, m) ∧
+      (esAnalysisF64 ts E n tm lag s).get none i j
+        = some (symmOpF64 s (strengthF64 a m) (strengthF64 b m)) ∧
+      (esAnalysis ts E n tm lag s).get none i j = some (symmOp s a b, m) ∧
+      (0 ≤ strengthF64 a m ∧ strengthF64 a m ≤ 1) ∧
+      (0 ≤ strengthF64 b m ∧ strengthF64 b m ≤ 1) := by
+  rw [esAnalysisF64_entry ts E n tm lag s i j hi hj, esAnalysis_entry ts E n tm lag s i j hi hj]
+  rcases esMatrix_pairF ts E n tm lag hts hlen i j hi hj with
+    ⟨h1, h2⟩ | ⟨a, b, m, h1, h2, hm, ha, hb⟩
+  · left
+    rw [h1, h2]
+    cases s <;> exact ⟨rfl, rfl⟩
+  · right
+    refine ⟨a, b, m, h1, h2, ?_, ?_, strengthF64_range a m ha.1 ha.2.2 ha.2.1 hm.1 hm.2,
+      strengthF64_range b m hb.1 hb.2.2 hb.2.1 hm.1 hm.2⟩
+    · rw [h1, h2]
+      exact symmOpF64N_some s _ _
+    · rw [h1, h2]
+      cases s <;> rfl
+
+/-- **float-level range of the ES analysis matrix**: under `directed`, `mean`, `max`, `min`
+every entry of the matrix of doubles that is not NaN lies in `[0,1]` -/
+theorem esAnalysisF64_range (ts : List Rat) (E : Mat Bool) (n : Nat) (tm : Option Rat) (lag : Rat)
+    (s : Symm) (hs : s = .directed ∨ s = .mean ∨ s = .max ∨ s = .min)
+    (hts : List.Pairwise (· < ·) ts) (hlen : ts.length ≤ 2 ^ 24)
+    (i j : Nat) (hi : i < n) (hj : j < n) (v : Rat)
+    (hv : (esAnalysisF64 ts E n tm lag s).get none i j = some v) : 0 ≤ v ∧ v ≤ 1 := by
+  rcases esAnalysisF64_value ts E n tm lag s hts hlen i j hi hj with
+    ⟨h, _⟩ | ⟨a, b, m, _, _, hval, _, ha, hb⟩
+  · rw [h] at hv; cases hv
+  · rw [hval] at hv
+    injection hv with hv
+    subst hv
+    exact symmOpF64_range s hs _ _ ha hb
+
+/-- `symmetric` entries of the matrix of doubles lie in `[0,2]`, `antisym` entries in `[-1,1]` -/
+theorem esAnalysisF64_range_sum_diff (ts : List Rat) (E : Mat Bool) (n : Nat) (tm : Option Rat)
+    (lag : Rat) (hts : List.Pairwise (· < ·) ts) (hlen : ts.length ≤ 2 ^ 24)
+    (i j : Nat) (hi : i < n) (hj : j < n) (v : Rat) :
+    ((esAnalysisF64 ts E n tm lag .symmetric).get none i j = some v → 0 ≤ v ∧ v ≤ 2) ∧
+    ((esAnalysisF64 ts E n tm lag .antisym).get none i j = some v → -1 ≤ v ∧ v ≤ 1) := by
+  constructor
+  · intro hv
+    rcases esAnalysisF64_value ts E n tm lag .symmetric hts hlen i j hi hj with
+      ⟨h, _⟩ | ⟨a, b, m, _, _, hval, _, ha, hb⟩
+    · rw [h] at hv; cases hv
+    · rw [hval] at hv
+      injection hv with hv
+      subst hv
+      exact (symmOpF64_sum_diff_range _ _ ha hb).1
+  · intro hv
+    rcases esAnalysisF64_value ts E n tm lag .antisym hts hlen i j hi hj with
+      ⟨h, _⟩ | ⟨a, b, m, _, _, hval, _, ha, hb⟩
+    · rw [h] at hv; cases hv
+    · rw [hval] at hv
+      injection hv with hv
+      subst hv
+      exact (symmOpF64_sum_diff_range _ _ ha hb).2
+
+/-- `symmetric`, `mean`, `max`, `min` give a symmetric matrix of doubles (same bits at `[i,j]`
+and `[j,i]`); `antisym` gives an exactly antisymmetric one (NaN pattern symmetric) -/
+theorem esAnalysisF64_symmetric (ts : List Rat) (E : Mat Bool) (n : Nat) (tm : Option Rat)
+    (lag : Rat) (hts : List.Pairwise (· < ·) ts) (hlen : ts.length ≤ 2 ^ 24)
+    (i j : Nat) (hi : i < n) (hj : j < n) :
+    (∀ s : Symm, (s = .symmetric ∨ s = .mean ∨ s = .max ∨ s = .min) →
+      (esAnalysisF64 ts E n tm lag s).get none i j = (esAnalysisF64 ts E n tm lag s).get none j i) ∧
+    (esAnalysisF64 ts E n tm lag .antisym).get none i j
+      = ((esAnalysisF64 ts E n tm lag .antisym).get none j i).map (fun v => -v) := by
+  constructor
+  · intro s hs
+    rw [esAnalysisF64_entry ts E n tm lag s i j hi hj, esAnalysisF64_entry ts E n tm lag s j i hj hi]
+    rcases esMatrix_pairF ts E n tm lag hts hlen i j hi hj with
+      ⟨h1, h2⟩ | ⟨a, b, m, h1, h2, _, _, _⟩
+    · rw [h1, h2]
+    · rw [h1, h2]
+      simp only [esEntryF64, symmOpF64N_some]
+      rw [symmOpF64_comm s hs]
+  · rw [esAnalysisF64_entry ts E n tm lag .antisym i j hi hj,
+      esAnalysisF64_entry ts E n tm lag .antisym j i hj hi]
+    rcases esMatrix_pairF ts E n tm lag hts hlen i j hi hj with
+      ⟨h1, h2⟩ | ⟨a, b, m, h1, h2, _, _, _⟩
+    · rw [h1, h2]; rfl
+    · rw [h1, h2]
+      simp only [esEntryF64, symmOpF64N_some, Option.map_some]
+      rw [symmOpF64_antisym]
+
+/-- **the float matrix against the exact table**: every non-NaN entry is within `2⁻⁵³` relative of
+the exact table entry of the two stored doubles (one rounding for `symmetric` / `antisym` /
+`mean`, none for `directed` / `max` / `min`), and the NaN pattern is that of the exact analysis -/
+theorem esAnalysisF64_accuracy (ts : List Rat) (E : Mat Bool) (n : Nat) (tm : Option Rat)
+    (lag : Rat) (s : Symm) (hts : List.Pairwise (· < ·) ts) (hlen : ts.length ≤ 2 ^ 24)
+    (i j : Nat) (hi : i < n) (hj : j < n) :
+    ((esAnalysisF64 ts E n tm lag s).get none i j = none ↔
+      (esAnalysis ts E n tm lag s).get none i j = none) ∧
+    ∀ v, (esAnalysisF64 ts E n tm lag s).get none i j = some v →
+      ∃ a b m, (esAnalysis ts E n tm lag s).get none i j = some (symmOp s a b, m) ∧
+        |v - symmOp s (strengthF64 a m) (strengthF64 b m)|
+          ≤ |symmOp s (strengthF64 a m) (strengthF64 b m)| / 2 ^ 53 := by
+  rcases esAnalysisF64_value ts E n tm lag s hts hlen i j hi hj with
+    ⟨h1, h2⟩ | ⟨a, b, m, _, _, hval, hex, _, _⟩
+  · refine ⟨by simp [h1, h2], ?_⟩
+    intro v hv
+    rw [h1] at hv; cases hv
+  · refine ⟨by rw [hval, hex]; simp, ?_⟩
+    intro v hv
+    rw [hval] at hv
+    injection hv with hv
+    subst hv
+    exact ⟨a, b, m, hex, symmOpF64_err s _ _⟩
+
+/-- **float-level exchange and affine invariance of one call**: the two doubles are exchanged when
+the series are exchanged (lag negated), and are *bit-identical* after `t ↦ k·t + c`
+(`k > 0`, lag and window rescaled) — the counts and the norm do not change (`es_exchange`,
+`es_affine`), so neither do `np.sqrt` and the quotient -/
+theorem es_f64_exchange_affine (ex ey : List Rat) (tm : Option Rat) (lag : Rat) :
+    esF64 (es ey ex tm (-lag)) = ((esF64 (es ex ey tm lag)).2, (esF64 (es ex ey tm lag)).1) ∧
+    ∀ k c : Rat, 0 < k →
+      esF64 (es (ex.map (affT k c)) (ey.map (affT k c)) (tm.map (k * ·)) (k * lag))
+        = esF64 (es ex ey tm lag) := by
+  constructor
+  · rw [es_exchange]
+    cases es ex ey tm lag <;> rfl
+  · intro k c hk
+    rw [es_affine k c hk]
+
+/-- non-vacuity: a float matrix with proper entries; the `antisym` one has a negative entry -/
+example : (esAnalysisF64 (indexTimes 6)
+    [[true, true, false], [true, false, true], [true, true, true], [false, true, true],
+     [true, true, false], [true, true, true]] 3 none 0 .mean).get none 0 1 ≠ none := by
+  decide +kernel
+
+
+/-! ## round 5: the float arithmetic inside the counting of `event_synchronization`
+
+`esR fl` rounds every operation the function applies to times (`ey + lag`, `ex - ey`, `np.diff`)
+by `fl`; `esFl = esSeriesR rn53s` is the call in IEEE double.  The driver answers `esfl` with it;
+the harness compares it bit for bit on dyadic data *and* on time stamps whose sums and
+differences are not representable (where the counts differ from exact arithmetic). -/
+
+/-- the exact-arithmetic model `es`, about which every theorem above speaks, is the instance
+`fl = id` of the rounded model -/
+theorem es_float_model_id (ex ey : List Rat) (tm : Option Rat) (lag : Rat) :
+    esR id ex ey tm lag = es ex ey tm lag := esR_id ex ey tm lag
+
+/-- **no rounding, no difference**: for any rounding function that is the identity on the
+shifted times `t + lag` and on every difference of two of the times `ex ∪ (ey + lag)`, the rounded
+path returns what exact arithmetic returns -/
+theorem es_float_exact (fl : Rat → Rat) (ex ey : List Rat) (tm : Option Rat) (lag : Rat)
+    (hlag : ∀ t ∈ ey, fl (t + lag) = t + lag)
+    (hsub : ∀ a ∈ ex ++ ey.map (· + lag), ∀ b ∈ ex ++ ey.map (· + lag), fl (a - b) = a - b) :
+    esR fl ex ey tm lag = es ex ey tm lag := esR_exact fl ex ey tm lag hlag hsub
+
+/-- **IEEE double rounding is the identity on `k · 2^z`, `|k| < 2⁵³`** (any exponent `z`; the
+model has no under- / overflow) -/
+theorem ieee_exact_on_lattice (k z : Int) (hk : |k| < 2 ^ 53) :
+    rn53s ((k : Rat) * (2 : Rat) ^ z) = (k : Rat) * (2 : Rat) ^ z := rn53s_exact k z hk
+
+/-- **the float path of the call is the exact path on lattice data**: time stamps and lag integer
+multiples of one power of two `2^z` with `|k| ≤ 2⁵⁰` (integer time indices, times given to a fixed
+number of binary places, every float32 record spanning ≤ 26 binary orders) — then
+`event_synchronization` in IEEE double returns exactly what the exact-arithmetic model returns.
+This was the trusted-base item "IEEE arithmetic is exact on the dyadic inputs inside the
+counting". -/
+theorem es_float_lattice (z : Int) (ts1 ts2 : List Rat) (bx by_ : List Bool) (tm : Option Rat)
+    (lag : Rat) (h1 : ∀ t ∈ ts1, OnLat z (2 ^ 50) t) (h2 : ∀ t ∈ ts2, OnLat z (2 ^ 50) t)
+    (hl : OnLat z (2 ^ 50) lag) :
+    esFl ts1 bx ts2 by_ tm lag = esSeries ts1 bx ts2 by_ tm lag :=
+  esR_lattice z _ _ tm lag (fun t ht => h1 t ((select_sublist ts1 bx).subset ht))
+    (fun t ht => h2 t ((select_sublist ts2 by_).subset ht)) hl
+
+/-- **the whole float path on lattice data**: counting in double, `np.sqrt`, `/` — both doubles
+returned equal the doubles of the published formula and lie in `[0,1]` (strictly increasing time
+stamps, records of up to `2²⁴` samples) -/
+theorem es_float_lattice_value (z : Int) (ts1 ts2 : List Rat) (bx by_ : List Bool)
+    (tm : Option Rat) (lag : Rat)
+    (h1 : ∀ t ∈ ts1, OnLat z (2 ^ 50) t) (h2 : ∀ t ∈ ts2, OnLat z (2 ^ 50) t)
+    (hl : OnLat z (2 ^ 50) lag)
+    (hs1 : List.Pairwise (· < ·) ts1) (hs2 : List.Pairwise (· < ·) ts2)
+    (hl1 : ts1.length ≤ 2 ^ 24) (hl2 : ts2.length ≤ 2 ^ 24) :
+    esF64 (esFl ts1 bx ts2 by_ tm lag)
+      = esF64 (esSpec (select ts1 bx) (select ts2 by_) tm lag) ∧
+    ∀ v, ((esF64 (esFl ts1 bx ts2 by_ tm lag)).1 = some v ∨
+          (esF64 (esFl ts1 bx ts2 by_ tm lag)).2 = some v) → 0 ≤ v ∧ v ≤ 1 := by
+  rw [es_float_lattice z ts1 ts2 bx by_ tm lag h1 h2 hl]
+  refine ⟨?_, fun v hv => esSeries_f64_range ts1 ts2 bx by_ tm lag hs1 hs2
+    (norm_le_of_length ts1 ts2 bx by_ hl1 hl2) v hv⟩
+  unfold esSeries
+  rw [es_eq_formula]
+
+/-- non-vacuity of the lattice hypothesis: quarter-spaced time stamps, lag `1/2` -/
+example : ∀ t ∈ [(0 : Rat), 1 / 4, 1 / 2, 3 / 4, 1, 5 / 4], OnLat (-2) (2 ^ 50) t := by
+  intro t ht
+  simp only [List.mem_cons, List.not_mem_nil, or_false] at ht
+  rcases ht with rfl | rfl | rfl | rfl | rfl | rfl
+  · exact ⟨0, by norm_num, by norm_num⟩
+  · exact ⟨1, by norm_num, by norm_num⟩
+  · exact ⟨2, by norm_num, by norm_num⟩
+  · exact ⟨3, by norm_num, by norm_num⟩
+  · exact ⟨4, by norm_num, by norm_num⟩
+  · exact ⟨5, by norm_num, by norm_num⟩
+
+/-- the hypothesis is needed and the rounded model is not the exact one in disguise: on the doubles
+`0.2, 0.1·3, 0.4` against `0.1, 0.2, 0.4` shifted by the double `0.1` exact arithmetic counts
+`(1, 0)`, IEEE double counts `(1/2, 1/2)` — and so does the code (stream `rounding` of the harness) -/
+example :
+    es [3602879701896397 / 18014398509481984, 1351079888211149 / 4503599627370496,
+        3602879701896397 / 9007199254740992]
+       [3602879701896397 / 36028797018963968, 3602879701896397 / 18014398509481984,
+        3602879701896397 / 9007199254740992] none (3602879701896397 / 36028797018963968)
+      = .val 1 0 1 ∧
+    esR rn53s [3602879701896397 / 18014398509481984, 1351079888211149 / 4503599627370496,
+        3602879701896397 / 9007199254740992]
+       [3602879701896397 / 36028797018963968, 3602879701896397 / 18014398509481984,
+        3602879701896397 / 9007199254740992] none (3602879701896397 / 36028797018963968)
+      = .val (1 / 2) (1 / 2) 1 := by
+  constructor <;> decide +kernel
+
+/-- **IEEE rounding commutes with a power-of-two change of unit** (all rationals, all exponents;
+the model has no under- / overflow) -/
+theorem ieee_pow2_commutes (x : Rat) (j : Int) :
+    rn53s ((2 : Rat) ^ j * x) = (2 : Rat) ^ j * rn53s x := rn53s_scale x j
+
+/-- **change of the time unit by a power of two, in IEEE double, for *all* time stamps**:
+multiplying every time stamp, the lag and the window by `2^j` leaves the guards, both counts and
+the norm of the rounded path unchanged — the call returns bit-identical doubles, also where the
+operations inside the counting round (no lattice hypothesis).  With an unbounded window
+(`tm = none`) this is the rescaling clause of the statement at float level. -/
+theorem es_float_pow2_scale (j : Int) (ts1 ts2 : List Rat) (bx by_ : List Bool) (tm : Option Rat)
+    (lag : Rat) :
+    esFl (ts1.map ((2 : Rat) ^ j * ·)) bx (ts2.map ((2 : Rat) ^ j * ·)) by_
+        (tm.map ((2 : Rat) ^ j * ·)) ((2 : Rat) ^ j * lag)
+      = esFl ts1 bx ts2 by_ tm lag := by
+  unfold esFl esSeriesR
+  rw [select_map, select_map]
+  exact esR_pow2 j _ _ tm lag
+
+/-- the general form: any rounding that commutes with the multiplication by `k > 0` -/
+theorem es_float_scale (fl : Rat → Rat) (k : Rat) (hk : 0 < k) (hfl : ∀ x, fl (k * x) = k * fl x)
+    (ex ey : List Rat) (tm : Option Rat) (lag : Rat) :
+    esR fl (ex.map (k * ·)) (ey.map (k * ·)) (tm.map (k * ·)) (k * lag) = esR fl ex ey tm lag :=
+  esR_scale fl k hk hfl ex ey tm lag
+
+/-- non-vacuity: the rounding example above, time unit divided by `2²⁰` -/
+example :
+    esR rn53s ([3602879701896397 / 18014398509481984, 1351079888211149 / 4503599627370496,
+        3602879701896397 / 9007199254740992].map ((2 : Rat) ^ (-20 : Int) * ·))
+       ([3602879701896397 / 36028797018963968, 3602879701896397 / 18014398509481984,
+        3602879701896397 / 9007199254740992].map ((2 : Rat) ^ (-20 : Int) * ·)) none
+       ((2 : Rat) ^ (-20 : Int) * (3602879701896397 / 36028797018963968))
+      = .val (1 / 2) (1 / 2) 1 := by
+  rw [show (none : Option Rat) = (none : Option Rat).map ((2 : Rat) ^ (-20 : Int) * ·) from rfl,
+    esR_pow2]
+  decide +kernel
+
+/-- **exchange in IEEE double at lag `0`, for *all* time stamps that are doubles**: exchanging the
+series exchanges the two counts (hence the two doubles returned), whatever the subtractions inside
+the counting round to — IEEE rounding is odd (`rn53s_neg`) -/
+theorem es_float_exchange_lag0 (ex ey : List Rat) (tm : Option Rat)
+    (hdbl : ∀ t ∈ ex ++ ey, rn53s t = t) :
+    esR rn53s ey ex tm 0 = (esR rn53s ex ey tm 0).swap := by
+  rw [esR_exchange_lag0 rn53s rn53s_neg ex ey tm (fun t ht => by rw [add_zero]; exact hdbl t ht)]
+  cases esR rn53s ex ey tm 0 <;> rfl
+
+/-- **shift on the float path of lattice data**: time stamps, shift and lag on one binary lattice
+(`|k| ≤ 2⁴⁹` for stamps and shift) — the call in IEEE double returns the same counts before and
+after the shift -/
+theorem es_float_lattice_shift (z : Int) (c : Rat) (ts1 ts2 : List Rat) (bx by_ : List Bool)
+    (tm : Option Rat) (lag : Rat)
+    (h1 : ∀ t ∈ ts1, OnLat z (2 ^ 49) t) (h2 : ∀ t ∈ ts2, OnLat z (2 ^ 49) t)
+    (hc : OnLat z (2 ^ 49) c) (hl : OnLat z (2 ^ 50) lag) :
+    esFl (ts1.map (· + c)) bx (ts2.map (· + c)) by_ tm lag = esFl ts1 bx ts2 by_ tm lag := by
+  have m1 : ∀ t ∈ ts1.map (· + c), OnLat z (2 ^ 50) t := by
+    intro t ht
+    obtain ⟨u, hu, rfl⟩ := List.mem_map.1 ht
+    exact ((h1 u hu).add hc).mono (by norm_num)
+  have m2 : ∀ t ∈ ts2.map (· + c), OnLat z (2 ^ 50) t := by
+    intro t ht
+    obtain ⟨u, hu, rfl⟩ := List.mem_map.1 ht
+    exact ((h2 u hu).add hc).mono (by norm_num)
+  rw [es_float_lattice z _ _ bx by_ tm lag m1 m2 hl,
+    es_float_lattice z ts1 ts2 bx by_ tm lag (fun t ht => (h1 t ht).mono (by norm_num))
+      (fun t ht => (h2 t ht).mono (by norm_num)) hl]
+  unfold esSeries
+  rw [select_map, select_map]
+  exact es_shift c _ _ tm lag
 
 end Pyunicorn.Events
